@@ -718,10 +718,10 @@ def streams3d(tier, rng):
     if tier == "quick":
         return [
             ("3-D exhaustive WF 3-maps n<=3 (removed darts included)", exhaustive3([1, 2, 3], rng), True),
-            ("3-D WF 3-maps n=4 (4% sample)", exhaustive3([4], rng, 0.04), False),
+            ("3-D WF 3-maps n=4 (10% sample)", exhaustive3([4], rng, 0.10), False),
             ("3-D glued faces <=2 faces, fresh + random edits", glued_faces3(rng, 2, 8), False),
             ("3-D glued faces 3 faces (sample)", glued_faces3(rng, 3, 2, frac=0.25), False),
-            ("3-D pairs of polyhedra, opened faces/edges", polyhedra3(250, rng), False),
+            ("3-D pairs of polyhedra, opened faces/edges", polyhedra3(400, rng), False),
         ]
     return [
         ("3-D exhaustive WF 3-maps n<=4 (removed darts included)", exhaustive3([1, 2, 3, 4], rng), True),
